@@ -461,5 +461,27 @@ func TestVerifC02(t *testing.T) {
 			}
 		}
 	}
+	// (c) endurance: the same range is evicted and read again many times (the
+	// scheduler's per-block in-flight counters saturate at 2-3, so a counter that
+	// leaks one unit per round only stalls the stream after several rounds), on
+	// windows that end in the torrent's short last block, start in it, or span
+	// everything, with and without a seek back in between
+	for _, win := range [][2]int64{{0, L}, {2 * P, L - 2*P}, {L - 1, 1}, {100, 40000}, {P, P}} {
+		for _, rounds := range []int{3, 4, 5, 8} {
+			for _, rd := range []string{"read:40000", "read:100", "read:1"} {
+				if !mine() {
+					continue
+				}
+				var ops []string
+				for i := 0; i < rounds; i++ {
+					ops = append(ops, rd, "evict", "seek:0:0")
+				}
+				ops = append(ops, rd)
+				for _, prefill := range []bool{false, true} {
+					judge(readScenario{Off: win[0], Len: win[1], Prefill: prefill, Seed: true, Ops: ops})
+				}
+			}
+		}
+	}
 	res.Sample(readScenario{Off: 100, Len: 40000, Seed: true, Ops: []string{"read:40000", "evict", "read:100", "read:40000"}})
 }
